@@ -12,6 +12,7 @@ package main
 
 import (
 	"crypto/sha256"
+	"encoding/base32"
 	"encoding/base64"
 	"encoding/hex"
 	"fmt"
@@ -21,6 +22,7 @@ import (
 	"runtime"
 	"sort"
 	"strings"
+	"sync/atomic"
 	"time"
 
 	"github.com/miekg/dns"
@@ -145,6 +147,10 @@ func startLive(c liveCfg) {
 		}
 	}})
 	live.Stub.Set(stubRespond)
+	if live.Cache != nil {
+		gate.starved.Store(false)
+		live.Cache.SetDNSSECCryptoLimiter(gate)
+	}
 	opSeq = 0
 	slabs = [4]*server.VerifJob{}
 }
@@ -584,13 +590,27 @@ func canonSection(rrs []dns.RR) []canonRR {
 			// the validity window is wall-clock derived in the stub: keep all other fields
 			rest = fmt.Sprintf("IN RRSIG %d %d %d %d %s", sg.TypeCovered, sg.Algorithm, sg.Labels, sg.KeyTag, sg.SignerName)
 		}
+		owner := unmark(strings.ToLower(h.Name))
+		if n3, ok := r.(*dns.NSEC3); ok {
+			// owner label and next-hashed-owner are hashes of the (isomorphic, not equal) zone
+			// names: compare everything else
+			if i := strings.Index(owner, "."); i >= 0 {
+				owner = "<hash>" + owner[i:]
+			}
+			rest = fmt.Sprintf("IN NSEC3 %d %d %d %s <next> %v", n3.Hash, n3.Flags, n3.Iterations, n3.Salt, n3.TypeBitMap)
+		}
+		if sg, ok := r.(*dns.RRSIG); ok && sg.TypeCovered == dns.TypeNSEC3 {
+			if i := strings.Index(owner, "."); i >= 0 {
+				owner = "<hash>" + owner[i:]
+			}
+		}
 		switch h.Rrtype {
 		case dns.TypeNS, dns.TypeCNAME, dns.TypeSOA, dns.TypePTR, dns.TypeMX, dns.TypeDNAME, dns.TypeSRV:
 			// names inside this RDATA may be compression pointers into the echoed
 			// question and then decode with the client's spelling (see notes/C05.md)
 			rest = strings.ToLower(rest)
 		}
-		out = append(out, canonRR{owner: unmark(strings.ToLower(h.Name)), rest: unmark(rest), ttl: h.Ttl})
+		out = append(out, canonRR{owner: owner, rest: unmark(rest), ttl: h.Ttl})
 	}
 	return out
 }
@@ -958,6 +978,14 @@ func execQ(a map[string]string) vlib.Res {
 		cache.VerifC05ResetEntryLimiters()
 	}
 
+	// RFC 8198 state: an NSEC3 proof covering the name; with starve=1 the warm-up runs while
+	// the crypto budget is exhausted (the denial rung misses, resolution is attempted)
+	if a["nsec3"] == "1" && live.Cache != nil {
+		seedDenial(names)
+		if a["starve"] == "1" {
+			gate.starved.Store(true)
+		}
+	}
 	// warm-up: the same plain question through the same entry for all three names
 	callsBefore := live.Stub.Calls.Load()
 	if !strings.Contains(s.name, "@") {
@@ -985,6 +1013,7 @@ func execQ(a map[string]string) vlib.Res {
 			}
 		}
 	}
+	gate.starved.Store(false)
 	if shift > 0 && live.Cache != nil {
 		cache.VerifC05Shift(live.Cache, time.Duration(shift)*time.Second)
 	}
@@ -1129,7 +1158,7 @@ func execQ(a map[string]string) vlib.Res {
 	if len(replies[2]) > 0 {
 		dist = append(dist, "first:"+replies[2][0].inline+":"+replies[2][0].class)
 	}
-	for _, kvp := range [][2]string{{"cut", a["cut"]}, {"fail", a["fail"]}, {"mix", a["mix"]}} {
+	for _, kvp := range [][2]string{{"cut", a["cut"]}, {"fail", a["fail"]}, {"mix", a["mix"]}, {"nsec3", a["nsec3"]}, {"starve", a["starve"]}} {
 		if kvp[1] != "" {
 			dist = append(dist, kvp[0]+":"+kvp[1])
 		}
@@ -1325,4 +1354,91 @@ func execSeq(a map[string]string) vlib.Res {
 		return strings.Join(o, ",")
 	}
 	return vlib.Res{Impl: fmt.Sprintf("raw=%s msg=%s inline=%s", cls(replies[0]), cls(replies[1]), cls(replies[2])), Oracle: verdict, Tags: "nt"}
+}
+
+// ---------------------------------------------------------------- RFC 8198 state
+
+// cryptoGate is the shared DNSSEC crypto limiter of the instance: NSEC3
+// hashing of the aggressive-denial rung draws on it; starved, the rung misses
+// although a covering proof is cached.
+type cryptoGate struct{ starved atomic.Bool }
+
+func (g *cryptoGate) TryAcquire() (func(), bool) {
+	if g.starved.Load() {
+		return nil, false
+	}
+	return func() {}, true
+}
+
+var gate = &cryptoGate{}
+
+var b32hex = base32.HexEncoding.WithPadding(base32.NoPadding)
+
+func adjacentHash(encoded string, delta int) string {
+	v, err := b32hex.DecodeString(strings.ToUpper(encoded))
+	if err != nil || len(v) != 20 {
+		panic("nsec3 hash")
+	}
+	for i := len(v) - 1; i >= 0; i-- {
+		if delta > 0 {
+			v[i]++
+			if v[i] != 0 {
+				break
+			}
+		} else {
+			prev := v[i]
+			v[i]--
+			if prev != 0 {
+				break
+			}
+		}
+	}
+	return b32hex.EncodeToString(v)
+}
+
+// nsec3Proof builds the validated NXDOMAIN proof (RFC 5155 closest-encloser proof,
+// closest encloser = zone apex) a resolver would hand the cache for qname in zone.
+func nsec3Proof(qname, zone string) *dns.Msg {
+	qname, zone = strings.ToLower(qname), strings.ToLower(zone)
+	labels := dns.SplitDomainName(qname)
+	zl := dns.CountLabel(zone)
+	nextCloser := strings.Join(labels[len(labels)-zl-1:], ".") + "."
+	exp := uint32(time.Now().Add(2 * time.Hour).Unix())
+	sigFor := func(owner string, covered uint16) dns.RR {
+		return &dns.RRSIG{Hdr: dns.RR_Header{Name: owner, Rrtype: dns.TypeRRSIG, Class: dns.ClassINET, Ttl: 300}, TypeCovered: covered,
+			Algorithm: dns.RSASHA256, Labels: uint8(dns.CountLabel(owner)), OrigTtl: 300, Expiration: exp, Inception: exp - 10800, KeyTag: 1,
+			SignerName: zone, Signature: "AA=="}
+	}
+	rec := func(owner, next string, bitmap []uint16) *dns.NSEC3 {
+		return &dns.NSEC3{Hdr: dns.RR_Header{Name: owner + "." + zone, Rrtype: dns.TypeNSEC3, Class: dns.ClassINET, Ttl: 300}, Hash: dns.SHA1,
+			HashLength: 20, NextDomain: next, TypeBitMap: bitmap}
+	}
+	ce := dns.HashName(zone, dns.SHA1, 0, "")
+	nc := dns.HashName(nextCloser, dns.SHA1, 0, "")
+	wc := dns.HashName("*."+zone, dns.SHA1, 0, "")
+	m := new(dns.Msg)
+	m.Response, m.RecursionAvailable, m.AuthenticatedData = true, true, true
+	m.Rcode = dns.RcodeNameError
+	m.Question = []dns.Question{{Name: qname, Qtype: dns.TypeA, Qclass: dns.ClassINET}}
+	soa := &dns.SOA{Hdr: dns.RR_Header{Name: zone, Rrtype: dns.TypeSOA, Class: dns.ClassINET, Ttl: 300}, Ns: "ns1." + zone, Mbox: "hostmaster." + zone,
+		Serial: 1, Refresh: 3600, Retry: 600, Expire: 86400, Minttl: 300}
+	m.Ns = append(m.Ns, soa, sigFor(zone, dns.TypeSOA))
+	for _, r := range []*dns.NSEC3{
+		rec(ce, adjacentHash(ce, 1), []uint16{dns.TypeNS, dns.TypeSOA, dns.TypeRRSIG, dns.TypeNSEC3}),
+		rec(adjacentHash(nc, -1), adjacentHash(nc, 1), []uint16{dns.TypeRRSIG, dns.TypeNSEC3}),
+		rec(adjacentHash(wc, -1), adjacentHash(wc, 1), []uint16{dns.TypeRRSIG, dns.TypeNSEC3}),
+	} {
+		m.Ns = append(m.Ns, r, sigFor(r.Hdr.Name, dns.TypeNSEC3))
+	}
+	return m
+}
+
+// seedDenial installs an NSEC3 proof covering each of the three names.
+func seedDenial(names [3]string) bool {
+	ok := true
+	for p := 0; p < 3; p++ {
+		zone := zoneOf(names[p])
+		ok = cache.VerifC05RecordDenialProof(live.Cache, nsec3Proof(names[p], zone), zone, true) && ok
+	}
+	return ok
 }
